@@ -176,6 +176,18 @@ type action struct {
 	concurrent *action
 	concTS     time.Time
 	ctxMode    string // how the caller holds the endorse.Context: "", struct, ctx, ctx+buf (evidence)
+
+	// dimensions of the audit cases (audit.go); the zero values are the behaviour of all other cases
+	dry      bool          // Context.DryRun is set: nothing is written, and the manifest need not index this run
+	noOpts   bool          // the context carries no output.Options at all (overwrite permission unset, not false)
+	freshT   bool          // local store: the run goes through a new localnonvcs.T on the same root
+	sel      []int         // worlds with several stores: the stores the run is addressed to, in Context.VCSs order (nil: all)
+	skip     bool          // set per store while judging: the run was not addressed to this store
+	flt      *fault        // scripted fault of a hooked store during this run
+	tag      string        // appended to the store kind in the evidence cells
+	tagAfter func() string // evaluated after the run, appended to tag
+	viaVCS   int           // store-switch probe: the caller assigns Context.VCS = store viaVCS-1 and nothing else
+	who      string        // which caller made the run (evidence and witness)
 }
 
 func (a action) String() string {
@@ -194,6 +206,27 @@ func (a action) String() string {
 	}
 	if a.link != "" {
 		s += " candidate-path-is-symlink-to-" + a.link
+	}
+	if a.dry {
+		s += " dry_run"
+	}
+	if a.noOpts {
+		s += " (context without output options)"
+	}
+	if a.freshT {
+		s += " (through a new localnonvcs.T)"
+	}
+	if a.viaVCS > 0 {
+		s += fmt.Sprintf(" (caller assigned Context.VCS = store %d)", a.viaVCS-1)
+	}
+	if a.sel != nil {
+		s += fmt.Sprintf(" addressed-to-stores=%v", a.sel)
+	}
+	if a.flt != nil {
+		s += " fault{" + a.flt.String() + "}"
+	}
+	if a.who != "" {
+		s += " caller=" + a.who
 	}
 	if a.concurrent != nil {
 		s += " {while the first submit attempt is in flight another run lands: " + a.concurrent.String() + "}"
@@ -227,6 +260,10 @@ type env struct {
 	observeOnly   bool // alias histories: findings are counted, never reported as violations
 	raceRefresh   int  // retried runs that succeeded after a concurrent run refreshed a listed candidate
 	reusedChanged int  // successful runs from a reused Context whose image differs from that Context's first
+	observeWhat   string // what an observe-only history is about (notes)
+	lastErr       error  // result of the latest run made by stepOn
+	light         bool   // runs are made from several goroutines: panics are recovered here, not by core.Guard
+	au            auditStats
 }
 
 // session is a caller that keeps one endorse.Context (and possibly one context.Context, one
@@ -284,14 +321,26 @@ func (e *env) endorse(i int, gname string, w *world, a action, ts time.Time, ses
 		ec = ses.ec
 	} else {
 		ec = &endorse.Context{SevSnp: &sev.SnpEndorsementRequest{LaunchVmsas: 1, Product: spb.SevProduct_SEV_PRODUCT_MILAN, ImageID: "00000000-0000-4000-8000-000000000001"}}
-		if len(w.stores) == 1 {
-			ec.VCS = w.stores[0].VCS()
-		} else {
+		switch {
+		case a.sel != nil || a.viaVCS > 0:
+		case len(w.stores) == 1:
+			ec.VCS = vcsFor(w.stores[0], a)
+		default:
 			for _, s := range w.stores {
 				ec.VCSs = append(ec.VCSs, s.VCS())
 			}
 		}
 	}
+	if a.sel != nil { // the caller names the stores of this run (also on a kept Context)
+		ec.VCS, ec.VCSs = nil, nil
+		for _, k := range a.sel {
+			ec.VCSs = append(ec.VCSs, vcsFor(w.stores[k], a))
+		}
+	}
+	if a.viaVCS > 0 {
+		ec.VCS = w.stores[a.viaVCS-1].VCS()
+	}
+	ec.DryRun = a.dry
 	image := e.images[a.img]
 	if ses != nil && ses.mode == "ctx+buf" {
 		if ses.buf == nil {
@@ -307,6 +356,8 @@ func (e *env) endorse(i int, gname string, w *world, a action, ts time.Time, ses
 	}
 	var ctx context.Context
 	switch {
+	case ses == nil && a.noOpts:
+		ctx = endorse.NewContext(keys.NewContext(context.Background(), e.kc), ec)
 	case ses == nil:
 		ctx = endorse.NewContext(output.NewContext(keys.NewContext(context.Background(), e.kc), &output.Options{Overwrite: a.ow, Quiet: true}), ec)
 	case ses.ec == nil:
@@ -324,6 +375,10 @@ func (e *env) endorse(i int, gname string, w *world, a action, ts time.Time, ses
 		ses.runs++
 	}
 	var err error
+	if e.light {
+		panicked := e.lightGuard(i, gname, func() { err = endorse.VirtualFirmware(ctx) })
+		return err, panicked
+	}
 	m := e.c.Guard(i, entryPoint, gname, core.Budget{}, func() { err = endorse.VirtualFirmware(ctx) })
 	return err, m.Panicked
 }
@@ -355,12 +410,16 @@ func (e *env) stepOn(i int, gname string, w *world, a action, ts time.Time, hist
 		}
 	}
 	err, panicked := e.endorse(i, gname, w, a, ts, ses)
+	e.lastErr = err
 	nf := 0
 	if panicked {
 		nf++
 	}
 	if ses != nil {
 		a.ctxMode = ses.mode
+	}
+	if a.tagAfter != nil {
+		a.tag += a.tagAfter()
 	}
 	var lclass, loutcome string
 	if land != nil {
@@ -377,8 +436,13 @@ func (e *env) stepOn(i int, gname string, w *world, a action, ts time.Time, hist
 		a.concurrent = nil
 	}
 	for k, s := range w.stores {
-		n, class, outcome := e.account(i, gname, w, s, a, ts, err, pres[k], s.Snapshot(), hist, "")
+		ak := a
+		ak.skip = (a.sel != nil && !contains(a.sel, k)) || (a.viaVCS > 0 && a.viaVCS-1 != k)
+		n, class, outcome := e.account(i, gname, w, s, ak, ts, err, pres[k], s.Snapshot(), hist, "")
 		nf += n
+		if ak.skip {
+			continue
+		}
 		if land != nil && !e.observeOnly {
 			e.c.Count("concurrent-landings/"+loutcome+"/then-retried-run-"+outcome, 1)
 			e.c.Cell("race|landed=%s,%s|retried=%s,overwrite=%v,%s", lclass, loutcome, class, a.ow, outcome)
@@ -389,7 +453,7 @@ func (e *env) stepOn(i int, gname string, w *world, a action, ts time.Time, hist
 		if ses != nil && ses.runs > 1 && !e.observeOnly {
 			e.c.Count("runs-from-reused-context/"+ses.mode+"/"+outcome, 1)
 			e.c.Cell("reused-context|%s|image-differs-from-first=%v|%s|%s", ses.mode, a.img != ses.firstImg, class, outcome)
-			if outcome == "ok" && !a.snapshot && a.img != ses.firstImg {
+			if outcome == "ok" && !a.snapshot && !a.dry && a.img != ses.firstImg {
 				e.reusedChanged++
 			}
 		}
@@ -402,15 +466,20 @@ func (e *env) stepOn(i int, gname string, w *world, a action, ts time.Time, hist
 func (e *env) account(i int, gname string, w *world, s store, a action, ts time.Time, err error, pre, post map[string][]byte, hist []string, tag string) (int, string, string) {
 	c := e.c
 	nf := 0
-	st := &step{outDir: a.outDir, base: a.base(), digest: e.digests[a.img], overwrite: a.ow, snapshot: a.snapshot, ts: ts, err: err}
+	// a dry run and a run that was not addressed to this store write nothing the manifest has to index
+	st := &step{outDir: a.outDir, base: a.base(), digest: e.digests[a.img], overwrite: a.ow, snapshot: a.snapshot || a.dry || a.skip, ts: ts, err: err}
 	class := mergeClass(pre, st)
 	_, targetExists := pre[path.Join(a.outDir, st.base)]
 	fs := judge(pre, post, st, &e.st)
 	for _, f := range fs {
 		nf++
 		if e.observeOnly {
-			c.Count("alias-observation/"+f.rule, 1)
-			c.Note("alias names (not judged): rule %s fired, e.g. after [%s]: %s", f.rule, strings.Join(append(append([]string(nil), hist...), a.String()), " ; "), f.detail)
+			what := e.observeWhat
+			if what == "" {
+				what = "alias"
+			}
+			c.Count(what+"-observation/"+f.rule, 1)
+			c.Note(what+" names (not judged): rule %s fired, e.g. after [%s]: %s", f.rule, strings.Join(append(append([]string(nil), hist...), a.String()), " ; "), f.detail)
 			continue
 		}
 		wit := map[string]any{"store": s.Kind(), "history": append(append([]string(nil), hist...), a.String()), "run_error": fmt.Sprint(err),
@@ -424,6 +493,12 @@ func (e *env) account(i int, gname string, w *world, s store, a action, ts time.
 		if ms, ok := s.(*memStore); ok {
 			wit["vcs_calls"] = tail(ms.v.Log, 24)
 		}
+		if hs, ok := s.(*hookedStore); ok {
+			wit["vcs_calls"] = tail(hs.hk.log, 32)
+		}
+		if a.who != "" {
+			wit["caller_of_this_run"] = a.who
+		}
 		c.Violate(core.Violation{Kind: "oracle", Entry: entryPoint, Site: f.rule, Gen: gname, Case: i,
 			Detail: fmt.Sprintf("[%s, after run %d: %s] %s", s.Kind(), len(hist)+1, a.String(), f.detail), Witness: wit})
 	}
@@ -431,7 +506,7 @@ func (e *env) account(i int, gname string, w *world, s store, a action, ts time.
 	outcome := "ok"
 	switch {
 	case err == nil:
-	case a.failWrite || (a.conflicts > a.retries):
+	case a.failWrite || (a.conflicts > a.retries) || (a.flt != nil && a.flt.fired > 0):
 		outcome = "failed-injected"
 	case !a.snapshot && targetExists && !a.ow:
 		outcome = "refused-existing-without-overwrite"
@@ -448,7 +523,16 @@ func (e *env) account(i int, gname string, w *world, s store, a action, ts time.
 	if e.observeOnly {
 		return nf, class, outcome
 	}
+	if a.skip {
+		c.Count("stores-not-addressed-by-a-run", 1)
+		return nf, "not-addressed", "not-addressed"
+	}
 	c.Count("runs/"+outcome, 1)
+	if a.dry {
+		c.Count("dry-runs/"+outcome, 1)
+		c.Cell("%s|dry-run|%s|%s", s.Kind()+tag+a.tag, class, outcome)
+		return nf, "dry-run", outcome
+	}
 	if a.snapshot {
 		c.Count("snapshot-mode-runs", 1)
 		c.Cell("%s|snapshot-mode|%s", s.Kind()+tag, outcome)
@@ -473,7 +557,7 @@ func (e *env) account(i int, gname string, w *world, s store, a action, ts time.
 	if a.conflicts > 0 && err == nil {
 		c.Count("runs/ok-after-commit-retry", 1)
 	}
-	kind := s.Kind() + tag
+	kind := s.Kind() + tag + a.tag
 	if a.link != "" {
 		kind += "+symlink-to-" + a.link
 		c.Count("symlink-candidate-runs/"+a.link+"/"+outcome, 1)
@@ -865,7 +949,8 @@ func run(c *core.Ctx) {
 	nalias := c.N(8, 40)
 	kinds := []string{"mem-tx", "local", "mem-wt", "multi", "local-links", "mem-tx-race"}
 	const nclosure = 4
-	total := nclosure + nh + nalias
+	base := nclosure + nh + nalias
+	total := base + e.auditCases()
 	for i := 0; i < total; i++ {
 		if !c.Mine(i) {
 			continue
@@ -885,10 +970,13 @@ func run(c *core.Ctx) {
 			}
 		case i < nclosure+nh:
 			e.history(i, kinds[i%len(kinds)])
-		default:
+		case i < base:
 			e.aliasHistory(i)
+		default:
+			e.auditCase(i, i-base)
 		}
 	}
+	e.auditEvidence()
 	c.Count("manifest-entries-checked", e.st.entriesChecked)
 	c.Count("entry-files-with-valid-signature", e.st.sigValid)
 	c.Count("entry-files-with-invalid-signature(not judged)", e.st.sigInvalid)
